@@ -16,6 +16,7 @@ class FakeTimer:
         self.started = False
         self.cancelled = False
         self.fired = False
+        self.owner = host.owner  # the Lifetime whose code created this timer (None outside any)
         host.timers.append(self)
 
     def start(self):
@@ -30,6 +31,7 @@ class FakeThreading:
 
     def __init__(self):
         self.timers = []
+        self.owner = None
         self.Event = _threading.Event
         self.Thread = _threading.Thread
         self.Lock = _threading.Lock
@@ -37,8 +39,8 @@ class FakeThreading:
     def Timer(self, interval, function):  # noqa: N802
         return FakeTimer(self, interval, function)
 
-    def armed(self):
-        return [t for t in self.timers if t.started and not t.cancelled and not t.fired]
+    def armed(self, owner=None):
+        return [t for t in self.timers if t.started and not t.cancelled and not t.fired and (owner is None or t.owner in (None, owner))]
 
 
 class TimerPatch:
@@ -79,19 +81,26 @@ class Lifetime:
         self.gw = self.driver.gw
         self.path = path
         if start:
-            self.gw.start_persistence()
+            fake.owner = self
+            try:
+                self.gw.start_persistence()
+            finally:
+                fake.owner = None
 
     def tick(self):
         """The periodic timer fires (if one is armed). Returns the exception, if any."""
-        armed = self.fake.armed()
+        armed = self.fake.armed(self)
         if not armed:
             return "no-timer"
         timer = armed[-1]
         timer.fired = True
+        self.fake.owner = self
         try:
             timer.function()
         except Exception as exc:  # pylint: disable=broad-except
             return exc
+        finally:
+            self.fake.owner = None
         return None
 
     def stop(self):
